@@ -1009,7 +1009,86 @@ func (g *Gen) feeRate(s string) *big.Rat {
 	return r
 }
 
+// buyMaxFeeOmitted: one message, two orders of one market from sellers other than the buyer; the first
+// entry states a generous max fee, the second states none although its buyer fee is at least one base
+// unit — otherwise both entries are in order (exact bids, quantities within the orders, a funded buyer).
+// The second entry's own (absent = zero) max fee does not cover its fee: the purchase must be refused.
+func (g *Gen) buyMaxFeeOmitted() *eng.Tx {
+	if g.V.FeeParams == nil {
+		return nil
+	}
+	bf := g.feeRate(g.V.FeeParams.BuyerPercentageFee)
+	if bf.Sign() <= 0 {
+		return nil
+	}
+	type cand struct {
+		o    *marketapi.SellOrder
+		ask  *big.Int
+		q    *big.Rat
+		fee  *big.Int
+		cost *big.Rat
+	}
+	byMarket := map[uint64][]cand{}
+	var mids []uint64
+	for _, o := range g.V.OrderList {
+		ask, _ := new(big.Int).SetString(o.AskAmount, 10)
+		q := ref.MustDec(o.Quantity)
+		if ask == nil || q == nil || q.Sign() <= 0 {
+			continue
+		}
+		if o.Expiration != nil && !time.Unix(o.Expiration.Seconds, int64(o.Expiration.Nanos)).After(g.Now) {
+			continue
+		}
+		sub := new(big.Rat).Mul(q, new(big.Rat).SetInt(ask))
+		if len(sub.Num().String()) > 30 {
+			continue
+		}
+		fee := ref.Trunc(new(big.Rat).Mul(sub, bf))
+		if len(byMarket[o.MarketId]) == 0 {
+			mids = append(mids, o.MarketId)
+		}
+		byMarket[o.MarketId] = append(byMarket[o.MarketId], cand{o, ask, q, fee, new(big.Rat).Mul(sub, new(big.Rat).Add(big.NewRat(1, 1), bf))})
+	}
+	sort.Slice(mids, func(i, j int) bool { return mids[i] < mids[j] })
+	for _, mid := range mids {
+		cs := byMarket[mid]
+		mk := g.V.Markets[mid]
+		if mk == nil || len(cs) < 2 {
+			continue
+		}
+		for i := range cs {
+			for j := range cs {
+				a, b := cs[i], cs[j]
+				if i == j || b.fee.Sign() <= 0 {
+					continue
+				}
+				total := new(big.Rat).Add(a.cost, b.cost)
+				for _, buyer := range g.A {
+					if buyer == obs.Addr(a.o.Seller) || buyer == obs.Addr(b.o.Seller) {
+						continue
+					}
+					if new(big.Rat).SetInt(g.S.BankOf(buyer, mk.BankDenom)).Cmp(total) <= 0 {
+						continue
+					}
+					mf := g.coin(mk.BankDenom, new(big.Int).Add(new(big.Int).Add(new(big.Int).Mul(a.fee, big.NewInt(2)), b.fee), big.NewInt(10)))
+					bidA, bidB := g.coin(mk.BankDenom, a.ask), g.coin(mk.BankDenom, b.ask)
+					return &eng.Tx{Msgs: []sdk.Msg{&markettypes.MsgBuyDirect{Buyer: buyer, Orders: []*markettypes.MsgBuyDirect_Order{
+						{SellOrderId: a.o.Id, Quantity: a.o.Quantity, BidPrice: &bidA, DisableAutoRetire: a.o.DisableAutoRetire, RetirementJurisdiction: "US", MaxFeeAmount: &mf},
+						{SellOrderId: b.o.Id, Quantity: b.o.Quantity, BidPrice: &bidB, DisableAutoRetire: b.o.DisableAutoRetire, RetirementJurisdiction: "US"},
+					}}}, Tag: "buy/max-fee-omitted-in-second-entry"}
+				}
+			}
+		}
+	}
+	return nil
+}
+
 func (g *Gen) genBuy() *eng.Tx {
+	if g.chance(0.06) {
+		if t := g.buyMaxFeeOmitted(); t != nil {
+			return t
+		}
+	}
 	o := g.order()
 	if o == nil {
 		return nil
@@ -1161,6 +1240,11 @@ func (g *Gen) genBuy() *eng.Tx {
 				c := g.coin(mk.BankDenom, new(big.Int).Add(new(big.Int).Mul(fi, big.NewInt(2)), big.NewInt(10)))
 				ord.MaxFeeAmount = &c
 			}
+		}
+		if n := len(m.Orders); n > 0 && m.Orders[n-1].MaxFeeAmount != nil && g.chance(0.3) {
+			// the previous entry stated a max fee, this one states none (= zero): every entry is judged by its
+			// own statement only
+			ord.MaxFeeAmount = nil
 		}
 		if den != mk.BankDenom && g.chance(0.8) {
 			// a client that believes the order is priced in `den` also states its max fee in `den`
